@@ -74,7 +74,7 @@ func runC14(res *Result, rng *RNG, tier string, outDir string) {
 	res.Rule = "(1) texts rendered from random trees of the documented grammar (facts, rules, checks with 'or', allow/deny policies, blocks; every term type incl. sets, dates with offsets, upper/lower-case hex, parameters; expressions over all seven precedence levels with method calls and redundant parentheses, nesting <= 5; random whitespace/newline/tab layout, comments): the parsed structure must equal the generator's tree (terms of the right type and value, parameters substituted, 'or' as alternative queries, postfix operator order = documented precedence and associativity, parentheses preserved); (2) the documented error classes (unbound parameter, malformed date, malformed hex, variable inside a set, chained comparison, double negation), in predicates and inside expressions: must be rejected; (3) token-level corruptions of valid texts and arbitrary strings incl. non-ASCII/control bytes: no parse function may panic, and whatever parses must be addable to a builder and an authorizer without panicking. The Coq parser model is evaluated on streams (1) and (2). Non-trivial = expression depth >= 2 or >= 2 block elements; distinct by text."
 	n := 500
 	if tier == "thorough" {
-		n = 6000
+		n = 15000
 	}
 	_, priv := rootKeys()
 	_ = ed25519.PrivateKey(priv)
